@@ -1,0 +1,180 @@
+//go:build verif && !single_cert
+// +build verif,!single_cert
+
+package gmtls
+
+import (
+	"crypto"
+	"crypto/elliptic"
+	"errors"
+	"sync/atomic"
+
+	"github.com/tjfoc/gmsm/sm2"
+)
+
+// Scripted GM server for the verification harness (build tag "verif" only; properties C15 / C18 / C08, harness op
+// evilkx). Nothing here is reachable from, or changes the behaviour of, the library's own code paths.
+//
+// The library's GM server never selects an ECDHE-SM2 suite, but a GMSSL client offers them by default and any peer
+// may select one. VerifEcdheServer is such a peer: it holds the genuine signing key, answers the ClientHello with
+// the ECDHE suite Suite and sends a correctly signed ServerKeyExchange
+//
+//	curve_type(1) | named_curve(2) | len(1) | point | sigLen(2) | SM2 signature over SHA1(randoms | params)
+//
+// Its ephemeral private key is 1 (the point is the base point of the SM2 curve unless Point is given), so whatever
+// the client does with the share, the scripted server can follow: an elliptic-curve Diffie-Hellman result is the x
+// coordinate of the client's own public point, and a client that ran X25519 against the peer share it never stored
+// (all zero) ends up with the pre-master secret 0^32. The scripted server then finishes the handshake with a
+// consistent transcript, so the only thing between this ServerKeyExchange and a completed handshake is the client's
+// check of the message.
+type VerifEcdheServer struct {
+	Suite     uint16 // GMTLS_ECDHE_SM4_CBC_SM3 or GMTLS_ECDHE_SM4_GCM_SM3
+	CurveType byte   // 3 = named_curve
+	CurveID   uint16
+	Point     []byte // ECPoint of the ServerECDHParams; nil: the uncompressed base point of the SM2 curve
+	BadSig    bool   // flip one bit of the signature (control: then the signature check is what refuses)
+}
+
+// VerifEcdheServerHandshake runs the scripted server on a server-side Conn whose Config holds the signing and
+// the encryption certificate.
+func (c *Conn) VerifEcdheServerHandshake(k VerifEcdheServer) error {
+	c.handshakeMutex.Lock()
+	defer c.handshakeMutex.Unlock()
+	c.in.Lock()
+	defer c.in.Unlock()
+	err := c.verifEcdheServerHandshake(k)
+	if err != nil {
+		c.flush()
+	}
+	c.handshakeErr = err
+	return err
+}
+
+func (c *Conn) verifEcdheServerHandshake(k VerifEcdheServer) error {
+	c.config.serverInitOnce.Do(func() { c.config.serverInit(nil) })
+	hs := serverHandshakeStateGM{c: c}
+	isResume, err := hs.readClientHello()
+	if err != nil {
+		return err
+	}
+	if isResume {
+		return errors.New("verif: the scripted server only performs full handshakes")
+	}
+	offered := false
+	for _, id := range hs.clientHello.cipherSuites {
+		if id == k.Suite {
+			offered = true
+		}
+	}
+	if !offered {
+		return errors.New("verif: the client did not offer the ECDHE suite")
+	}
+	hs.suite = nil
+	for _, s := range gmCipherSuites {
+		if s.id == k.Suite && s.flags&suiteECDHE != 0 {
+			hs.suite = s
+		}
+	}
+	if hs.suite == nil {
+		return errors.New("verif: not an ECDHE suite")
+	}
+
+	c.buffering = true
+	hs.hello.cipherSuite = hs.suite.id
+	hs.finishedHash = newFinishedHashGM(hs.suite)
+	hs.finishedHash.discardHandshakeBuffer()
+	hs.finishedHash.Write(hs.clientHello.marshal())
+	hs.finishedHash.Write(hs.hello.marshal())
+	if _, err := c.writeRecord(recordTypeHandshake, hs.hello.marshal()); err != nil {
+		return err
+	}
+	certMsg := new(certificateMsg)
+	for i := range hs.cert {
+		certMsg.certificates = append(certMsg.certificates, hs.cert[i].Certificate...)
+	}
+	hs.finishedHash.Write(certMsg.marshal())
+	if _, err := c.writeRecord(recordTypeHandshake, certMsg.marshal()); err != nil {
+		return err
+	}
+
+	pub := k.Point
+	if pub == nil {
+		p := sm2.P256Sm2().Params()
+		pub = elliptic.Marshal(sm2.P256Sm2(), p.Gx, p.Gy)
+	}
+	if len(pub) > 255 {
+		return errors.New("verif: point too long")
+	}
+	params := append([]byte{k.CurveType, byte(k.CurveID >> 8), byte(k.CurveID), byte(len(pub))}, pub...)
+	digest := sha1Hash([][]byte{hs.clientHello.random, hs.hello.random, params})
+	signer, ok := hs.cert[0].PrivateKey.(crypto.Signer)
+	if !ok {
+		return errors.New("verif: no signing key")
+	}
+	sig, err := signer.Sign(c.config.rand(), digest, nil)
+	if err != nil {
+		return err
+	}
+	if k.BadSig {
+		sig[len(sig)-1] ^= 1
+	}
+	skx := new(serverKeyExchangeMsg)
+	skx.key = append(append([]byte{}, params...), byte(len(sig)>>8), byte(len(sig)))
+	skx.key = append(skx.key, sig...)
+	hs.finishedHash.Write(skx.marshal())
+	if _, err := c.writeRecord(recordTypeHandshake, skx.marshal()); err != nil {
+		return err
+	}
+	helloDone := new(serverHelloDoneMsg)
+	hs.finishedHash.Write(helloDone.marshal())
+	if _, err := c.writeRecord(recordTypeHandshake, helloDone.marshal()); err != nil {
+		return err
+	}
+	if _, err := c.flush(); err != nil {
+		return err
+	}
+
+	msg, err := c.readHandshake()
+	if err != nil {
+		return err
+	}
+	ckx, ok := msg.(*clientKeyExchangeMsg)
+	if !ok {
+		c.sendAlert(alertUnexpectedMessage)
+		return unexpectedMessageError(ckx, msg)
+	}
+	hs.finishedHash.Write(ckx.marshal())
+	if len(ckx.ciphertext) < 2 || int(ckx.ciphertext[0]) != len(ckx.ciphertext)-1 {
+		return errClientKeyExchange
+	}
+	share := ckx.ciphertext[1:]
+	var preMaster []byte
+	switch {
+	case len(share) == 32:
+		// X25519 against a peer share that was never stored
+		preMaster = make([]byte, 32)
+	case share[0] == 4 && len(share)%2 == 1:
+		// ephemeral key 1: the shared point is the client's public point
+		preMaster = append([]byte{}, share[1:1+(len(share)-1)/2]...)
+	default:
+		return errClientKeyExchange
+	}
+	hs.masterSecret = masterFromPreMasterSecret(c.vers, hs.suite, preMaster, hs.clientHello.random, hs.hello.random)
+	if err := hs.establishKeys(); err != nil {
+		return err
+	}
+	if err := hs.readFinished(c.clientFinished[:]); err != nil {
+		return err
+	}
+	c.clientFinishedIsFirst = true
+	c.buffering = true
+	if err := hs.sendFinished(nil); err != nil {
+		return err
+	}
+	if _, err := c.flush(); err != nil {
+		return err
+	}
+	atomic.StoreUint32(&c.handshakeStatus, 1)
+	c.handshakes++
+	return nil
+}
